@@ -25,6 +25,7 @@ import RapidProofs.ContractsFloat
 import RapidProofs.ContractsGen2
 import RapidProofs.TranslatedEq
 import RapidProofs.TranslatedProgEq
+import RapidProofs.TranslatedFloatEq
 import RapidModel.Generated.Thresholds
 import RapidModel.Minimize
 
@@ -238,6 +239,35 @@ theorem source_genUintRange_in_range (fe : Go.FEval) (ft : FT) (H : FloatFacts f
     Yields (fun (k : UInt64 × Bool × Bool → Prog) => Translated.genUintRange fe min max bias fuel (fun u l r => k (u, l, r)))
       (fun x => min ≤ x.1 ∧ x.1 ≤ max) :=
   Yields.of_runEq (fun k => tr_genUintRange fe ft H min max bias fuel _ _ (fun _ _ _ => RunEq.refl _)) (uintRange_mem ft min max bias fuel h)
+
+/-- **floats.go, translated on every run**: `genFloatRange` (sign coin, the two calls of `genUfloatRange` with
+    their groups, both `switch` blocks, the rejection-free draw of `r`, the bit-clearing loop) for float64 runs
+    in lock-step with the model and hands on the same sign, exponent and significand parts -/
+theorem source_genFloatRange64 (fe : Go.FEval) (ft : FT) (H : FloatFacts fe ft) (HB : FloatFactsBits fe ft) (min max : UInt64)
+    (fuel : Nat) (hok : floatRangeOK fmt64 min max = true) :
+    Sim (fun (k : Bool × Int32 × UInt64 × UInt64 → Prog) => Translated.genFloatRange fe min max 52 fuel (fun s e si sf => k (s, e, si, sf)))
+        (fun (k : Bool × Int × UInt64 × UInt64 → Prog) => floatRange ft fmt64 min max fuel (fun s e si sf => k (s, e, si, sf)))
+        FloatRel :=
+  sim_genFloatRange64 fe ft H HB min max fuel hok
+
+/-- the range contract of `Float64Range`, for the source: `float64FromParts(genFloatRange(s, min, max, 52))` is in
+    `[min, max]` and not a NaN, for every bit source -/
+theorem source_float64_in_range (fe : Go.FEval) (ft : FT) (H : FloatFacts fe ft) (HB : FloatFactsBits fe ft) (min max : UInt64)
+    (fuel : Nat) (hok : floatRangeOK fmt64 min max = true) :
+    Yields (fun (k : UInt64 → Prog) =>
+        Translated.genFloatRange fe min max 52 fuel (fun s e si sf => k (Translated.float64FromParts s e si sf)))
+      (FloatOK fmt64 min max) :=
+  Yields.of_runEq (fun k => (sim_float64Value fe ft H HB min max fuel hok).runEq k k (fun _ _ h => by subst h; exact fun _ _ => rfl))
+    (float64_in_range ft min max fuel hok)
+
+theorem source_floatFromParts (sign : Bool) (e : Int32) (si sf : UInt64) :
+    Translated.float64FromParts sign e si sf = fmt64.fromParts sign e.toInt si sf ∧
+    (Translated.float32FromParts sign e si sf).toUInt64 = fmt32.fromParts sign e.toInt si sf :=
+  ⟨tr_float64FromParts sign e si sf, tr_float32FromParts sign e si sf⟩
+
+/-- the float hypotheses can be met as well -/
+theorem float_facts_bits_satisfiable : FloatFactsBits (feOf Rapid.Generated.ft) Rapid.Generated.ft :=
+  floatFactsBits_feOf _
 
 /-- `FloatFacts` is not an empty hypothesis: an evaluator that answers from the measured table meets it -/
 theorem float_facts_satisfiable : FloatFacts (feOf Rapid.Generated.ft) Rapid.Generated.ft :=
